@@ -29,9 +29,9 @@ theorem localOK_ref (T : Table) (o : Opts) (k : Kind) (a : Attrs) (kids : List (
   rcases hk with rfl | rfl | rfl | rfl | rfl | rfl | rfl | rfl | rfl <;>
     simp only [localOK, rulesOK, violations, Doc.kind, Doc.attrs, refViols_all]
 
-theorem hasCheck_ident (T : Table) (o : Opts) (hT : TableOK T = true) (p : String) (hp : p ∈ componentPositions) :
-    hasCheck T o .components ("identifier:" ++ p) = true := by
-  exact anyHolds_of_nil o _ ((tableFacts T hT).ident p hp)
+theorem hasCheck_ident (T : Table) (o : Opts) (a : Attrs) (hT : TableOK T = true) (p : String) (hp : p ∈ componentPositions) :
+    hasCheck T o a .components ("identifier:" ++ p) = true := by
+  exact anyHolds_of_nil o a _ ((tableFacts T hT).ident p hp)
 
 theorem localOK_components (T : Table) (o : Opts) (a : Attrs) (kids : List (String × Doc)) (vs : List Bool)
     (hT : TableOK T = true) :
@@ -41,8 +41,7 @@ theorem localOK_components (T : Table) (o : Opts) (a : Attrs) (kids : List (Stri
   congr 1
   apply all_congr_mem
   intro p hp
-  rw [hasCheck_ident T o hT p hp]
-  simp only [if_true]
+  simp only [hasCheck_ident T o _ hT p hp, if_true]
   apply all_congr_mem
   intro c _
   simp (disch := decide) only [all_when, enabled_plain]
